@@ -1,8 +1,12 @@
-"""C06 — (the streaming clause) every chunk size yields identical lines.
+"""C06 — sequence formats round-trip, the readers of a format agree, every chunk size yields identical lines.
 
-Engine E1 (CrossHair): the real util.io.iter_splitlines runs over an in-memory file with symbolic content and a
-SYMBOLIC chunk size; the result must equal str.splitlines() of the whole content.
-The writer -> parser round trips of the property are outside the reach of the solver (see OUTSIDE).
+Engine E1 (CrossHair).
+ * streaming: the real util.io.iter_splitlines runs over an in-memory file with symbolic content and a SYMBOLIC chunk
+   size; the result must equal str.splitlines() of the whole content.
+ * round trips: the real writers (FORMATTERS: fasta, gde, phylip, paml) write two records whose NAMES are symbolic strings
+   (or whose length and line width are symbolic integers) and every registered reader of the format (PARSERS, both
+   MinimalFastaParser modes, the bytes-based and the line-based iter_fasta_records) must return the same names, order and
+   sequences. Sequence CONTENT is concrete (textwrap / re on symbolic sequence text do not terminate; probed).
 """
 from __future__ import annotations
 
@@ -10,7 +14,9 @@ from vlib import w as W
 from vlib.core import Ob
 
 PROPERTY_ID = "C06"
-CLAIM = "for every file content within the bound and EVERY chunk size k >= 1 (unbounded integer), iter_splitlines yields exactly content.splitlines(): chunk boundaries inside a line, on a newline, or between CR and LF change nothing."
+CLAIM = ("for every file content within the bound and EVERY chunk size k >= 1 (unbounded integer), iter_splitlines yields exactly content.splitlines(): chunk boundaries inside a line, on a newline, or between CR and LF change nothing; "
+         "for every pair of distinct record names within the bound (incl. names containing '>', '#', '%', '|', ';', inner blanks, and 9/10/11-character PHYLIP names) and for every sequence length / line width within the bound, "
+         "what FORMATTERS[fasta|gde|phylip|paml] writes is read back by every reader of that format as the same names (PHYLIP: first 9 characters), order and sequences.")
 
 
 class _Stat:
@@ -103,19 +109,164 @@ def mk(alphabet, maxlen):
     return check
 
 
-ENCODED = [("src/cogent3/util/io.py", ["iter_splitlines"])]
+# ---------------------------------------------------------------- writer -> parser round trips, parser agreement
+S1, S2 = "ACGTTGCAAGCT", "TTGACAGGCATC"  # two concrete aligned rows (content is not the subject; names and layout are)
+ALPHABETS = {
+    # characters that matter to the readers: record markers of FASTA / GDE, comment marker, field separators, blank
+    "markers": "a>#% ",
+    "wide": "aB1>#%|;_ ",
+    "blank": "a ",  # inner blanks ('Genus species') need three characters
+}
+
+
+def _concrete(text):
+    """the bytes-based reader is selected by functools.singledispatch on the exact type, and works at C level on the buffer:
+    the written text is realised here (CrossHair forks on the value, so exhaustiveness over the bounded names is kept)"""
+    if W.PLAIN:
+        return text
+    from crosshair import deep_realize
+
+    return deep_realize(text)
+
+
+def _parsers(fmt):
+    from cogent3.parse import fasta as PF
+    from cogent3.parse.sequence import PARSERS
+
+    if fmt == "fasta":
+        return [
+            ("MinimalFastaParser(strict)", lambda text: PF.MinimalFastaParser(text.splitlines(), strict=True)),
+            ("MinimalFastaParser(non-strict)", lambda text: PF.MinimalFastaParser(text.splitlines(), strict=False)),
+            ("iter_fasta_records(bytes)", lambda text: PARSERS["fasta"](_concrete(text).encode("utf8"))),
+            ("iter_fasta_records(lines)", lambda text: PARSERS["fasta"](text.splitlines())),
+        ]
+    if fmt == "gde":
+        return [
+            ("MinimalGdeParser(strict)", lambda text: PARSERS["gde"](text.splitlines())),
+            ("MinimalGdeParser(non-strict)", lambda text: PARSERS["gde"](text.splitlines(), strict=False)),
+        ]
+    return [(f"PARSERS[{fmt}]", lambda text: PARSERS[fmt](text.splitlines()))]
+
+
+def _public_roundtrip(fmt, names, seqs):
+    """plain replay only: the public API with a real file (make_aligned_seqs(...).write -> load_aligned_seqs)"""
+    import os
+    import tempfile
+
+    import cogent3
+
+    d = tempfile.mkdtemp()
+    p = os.path.join(d, f"f.{fmt}")
+    try:
+        aln = cogent3.make_aligned_seqs(dict(zip(names, seqs)), moltype="dna")
+        aln.write(p)
+        got = cogent3.load_aligned_seqs(p, moltype="dna")
+        return list(got.names), [str(got.get_seq(n)) for n in got.names]
+    finally:
+        if os.path.exists(p):
+            os.unlink(p)
+        os.rmdir(d)
+
+
+def _expected_name(fmt, name):
+    if fmt == "phylip" and len(name) > 9:
+        return name[:9]  # the writer's documented truncation (10-column name field, at least one blank)
+    return name
+
+
+def mk_names(fmt, maxlen, alpha, prefix="", two=False):
+    """names are symbolic: FORMATTERS[fmt] writes two records, every registered reader of the format reads them back"""
+    chars = ALPHABETS[alpha]
+
+    def check(n1: str, n2: str) -> bool:
+        """
+        pre: 1 <= len(n1) <= maxlen and all(c in chars for c in n1)
+        pre: (1 <= len(n2) <= maxlen and all(c in chars for c in n2)) if two else n2 == "zz"
+        pre: n1 == n1.strip() and n2 == n2.strip()
+        post: _
+        """
+        from cogent3.format.alignment import FORMATTERS
+
+        _ = (maxlen, chars, two)
+        a, b = prefix + n1, (prefix + n2 if two else n2)
+        if _expected_name(fmt, a) == _expected_name(fmt, b):
+            return True  # names must be distinct (after the documented truncation)
+        if fmt == "phylip" and (" " in a[:10] or " " in b[:10]) and max(len(a), len(b)) > 9:
+            return True  # truncation inside a name with blanks: what remains is format-defined, not claimed
+        want = [(_expected_name(fmt, a), S1), (_expected_name(fmt, b), S2)]
+        if W.PLAIN:
+            names, seqs = _public_roundtrip(fmt, [a, b], [S1, S2])
+            if list(zip(names, seqs)) != want:
+                return False
+        text = FORMATTERS[fmt]({a: S1, b: S2}, order=[a, b])
+        for label, parse in _parsers(fmt):
+            got = [(str(n), str(q)) for n, q in parse(text)]
+            if got != want:
+                return False
+        return bool(W.reach("end"))
+
+    return check
+
+
+def mk_wrap(fmt, maxn, maxb, minb=1):
+    """sequence length and line width are symbolic: lengths below, at and above multiples of the line width"""
+    base1, base2 = S1 * 12, S2 * 12
+
+    def check(n: int, b: int) -> bool:
+        """
+        pre: 1 <= n <= maxn
+        pre: minb <= b <= maxb
+        post: _
+        """
+        from cogent3.format.alignment import FORMATTERS
+
+        _ = (maxn, maxb, minb)
+        s1, s2 = base1[:n], base2[:n]
+        want = [("seq_one", s1), ("s2", s2)]
+        text = FORMATTERS[fmt]({"seq_one": s1, "s2": s2}, block_size=b, order=["seq_one", "s2"])
+        for label, parse in _parsers(fmt):
+            got = [(str(x), str(q)) for x, q in parse(text)]
+            if got != want:
+                return False
+        if n > b and not W.reach("wrapped"):
+            return False
+        return bool(W.reach("end"))
+
+    return check
+
+
+ENCODED = [
+    ("src/cogent3/util/io.py", ["iter_splitlines"]),
+    ("src/cogent3/format/fasta.py", ["seqs_to_fasta"]),
+    ("src/cogent3/format/gde.py", ["alignment_to_gde", "GDEFormatter.format"]),
+    ("src/cogent3/format/phylip.py", ["alignment_to_phylip", "PhylipFormatter.format"]),
+    ("src/cogent3/format/paml.py", ["alignment_to_paml", "PamlFormatter.format"]),
+    ("src/cogent3/format/util.py", ["_AlignmentFormatter.set_align_info", "slice_string_in_blocks", "wrap_string_to_block_size"]),
+    ("src/cogent3/parse/fasta.py", ["MinimalFastaParser", "_strict_parser", "_faster_parser", "iter_fasta_records (bytes, list)", "minimal_converter", "MinimalGdeParser"]),
+    ("src/cogent3/parse/phylip.py", ["MinimalPhylipParser", "_get_header_info", "_split_line"]),
+    ("src/cogent3/parse/paml.py", ["PamlParser"]),
+    ("src/cogent3/parse/sequence.py", ["PARSERS", "LineBasedParser.__call__ (list)"]),
+]
 BOUNDS = {
-    "quick": ["content <= 4 characters over {a, b, LF} and over {a, CR, LF} with CR only as part of CR LF; chunk size k: unbounded symbolic integer >= 1"],
-    "thorough": ["content <= 5 characters, same alphabets; chunk size unbounded"],
+    "quick": ["streaming: content <= 4 characters over {a, b, LF} and over {a, CR, LF} with CR only as part of CR LF; chunk size k: unbounded symbolic integer >= 1",
+              "names: one symbolic name of 1..2 characters over {a, >, #, %, blank} and of 1..3 characters over {a, blank} (no leading / trailing blank) next to a fixed second record, per format; PHYLIP also 'abcdefgh' + 0..2 symbolic characters (lengths 8-10)",
+              "layout: two 12-periodic rows of symbolic length 1..14 with symbolic line width 1..5, and of symbolic length 1..130 at the default width 60, per format (CrossHair realises both integers: one path per value pair)"],
+    "thorough": ["streaming: content <= 5 characters", "names: 1..3 characters over the 5-character alphabet; 1..2 over {a,B,1,>,#,%,|,;,_,blank}; both names symbolic (1..2 characters); PHYLIP prefix 'abcdefg' + 0..3 and 'abcdefgh'+0..3",
+                 "layout: length 1..40 x width 1..12"],
 }
 ASSUMPTIONS = [
     "the file is an in-memory stub behind Path / open_ / stat().st_size (rebound in cogent3.util.io); decoding and compression are outside",
     "plain replay of a counterexample writes a real temporary file and calls the unpatched function",
     "well-formed text: CR occurs only in CR LF pairs",
+    "round trips: names are non-empty, distinct (PHYLIP: after truncation to 9), without leading / trailing blanks (all four formats strip the label line); sequence rows are two fixed DNA strings (or their prefixes); "
+    "the readers get text.splitlines() (line-based) or the encoded bytes (iter_fasta_records): that iter_splitlines(file) equals splitlines is the streaming obligation; file I/O, compression and load_* front ends are exercised only in the plain replay of a counterexample (make_aligned_seqs(...).write -> load_aligned_seqs on a real temporary file)",
+    "PHYLIP names longer than 9 characters that contain blanks are excluded (what survives truncation + strip is format-defined)",
+    "the bytes-based FASTA reader dispatches on the exact type and works on the C buffer: the written text is realised before it (CrossHair forks on the realised value, so the bounded name space is still exhausted)",
 ]
 OUTSIDE = [
-    "the larger part of the property: FASTA / PHYLIP / PAML / GDE / JSON write -> load round trips, agreement of the two FASTA parsers and of strict / non-strict modes, GenBank parsers, compression suffix handling, load_* front ends "
-    "(textwrap / re / strip on symbolic strings keep CrossHair from exhausting even one record with a 2-character name; z3's string theory has no terminating encoding of these substitutions; probed)",
+    "symbolic sequence CONTENT through the writers / readers (textwrap / re on symbolic text keep CrossHair from exhausting even 2 characters; z3's string theory has no terminating encoding of these substitutions; probed)",
+    "JSON round trips, GenBank / Clustal / Nexus / MSF / XMFA readers, compression suffix handling, load_* front ends (C-level I/O; only in plain replay)",
+    "names longer than the bound, names with leading / trailing blanks, non-ASCII names",
     "bare CR line endings", "contents longer than the bound",
 ]
 TRUSTED = ["str.splitlines as the oracle"]
@@ -124,7 +275,22 @@ TRUSTED = ["str.splitlines as the oracle"]
 def obligations(tier):
     T = tier == "thorough"
     n = 5 if T else 4
-    return [
+    obs = []
+    for fmt in ("fasta", "gde", "phylip", "paml"):
+        obs.append(Ob(f"names/{fmt}/len2/markers", __name__, "mk_names", {"fmt": fmt, "maxlen": 2, "alpha": "markers"}, timeout=1800, group="names"))
+        obs.append(Ob(f"names/{fmt}/len3/blank", __name__, "mk_names", {"fmt": fmt, "maxlen": 3, "alpha": "blank"}, timeout=1800, group="names"))
+        obs.append(Ob(f"wrap/{fmt}/n14/b1-5", __name__, "mk_wrap", {"fmt": fmt, "maxn": 14, "maxb": 5}, timeout=1800, twins=("end", "wrapped"), group="wrap"))
+        obs.append(Ob(f"wrap/{fmt}/n130/b60", __name__, "mk_wrap", {"fmt": fmt, "maxn": 130, "maxb": 60, "minb": 60}, timeout=1800, twins=("end", "wrapped"), group="wrap"))
+        if T:
+            obs.append(Ob(f"names/{fmt}/len3/markers", __name__, "mk_names", {"fmt": fmt, "maxlen": 3, "alpha": "markers"}, timeout=3600, group="names"))
+            obs.append(Ob(f"names/{fmt}/len2/wide", __name__, "mk_names", {"fmt": fmt, "maxlen": 2, "alpha": "wide"}, timeout=3600, group="names"))
+            obs.append(Ob(f"names/{fmt}/two/len2/markers", __name__, "mk_names", {"fmt": fmt, "maxlen": 2, "alpha": "markers", "two": True}, timeout=7200, group="names"))
+            obs.append(Ob(f"wrap/{fmt}/n40/b1-12", __name__, "mk_wrap", {"fmt": fmt, "maxn": 40, "maxb": 12}, timeout=3600, twins=("end", "wrapped"), group="wrap"))
+    obs.append(Ob("names/phylip/prefix8/len2", __name__, "mk_names", {"fmt": "phylip", "maxlen": 2, "alpha": "markers", "prefix": "abcdefgh"}, timeout=1800, group="names"))
+    if T:
+        obs.append(Ob("names/phylip/prefix7/len3", __name__, "mk_names", {"fmt": "phylip", "maxlen": 3, "alpha": "markers", "prefix": "abcdefg"}, timeout=3600, group="names"))
+        obs.append(Ob("names/phylip/prefix8/len3", __name__, "mk_names", {"fmt": "phylip", "maxlen": 3, "alpha": "markers", "prefix": "abcdefgh"}, timeout=3600, group="names"))
+    return obs + [
         Ob(f"chunks/ab/len{n}", __name__, "mk", {"alphabet": "ab", "maxlen": n}, timeout=1800, twins=("end", "chunked"), group="chunks"),
         Ob(f"chunks/crlf/len{n}", __name__, "mk", {"alphabet": "crlf", "maxlen": n}, timeout=1800, twins=("end", "chunked"), group="chunks"),
         Ob("chunks/ab/len3", __name__, "mk", {"alphabet": "ab", "maxlen": 3}, timeout=900, twins=("end", "chunked"), group="chunks"),
@@ -132,4 +298,6 @@ def obligations(tier):
 
 
 def classify(name, args, cex, rep):
+    if name.startswith("names/fasta"):
+        return "iter_fasta_records:label-containing->"
     return None
